@@ -33,6 +33,7 @@ type ValSnap struct {
 	Rate     string
 	MaxRate  string
 	MaxChg   string
+	Desc     string // the five description fields, joined
 	SelfDel  string // self-delegation shares ("" = none)
 }
 
@@ -45,6 +46,7 @@ type SignSnap struct {
 
 type PendSnap struct {
 	Oper, Cons                  int
+	Desc                        string // the five description fields, joined
 	Tokens, Shares, MSD         string
 	Rate, MaxRate, MaxChg       string
 	Moniker                     string
@@ -74,6 +76,7 @@ type Snapshot struct {
 	QPower     map[int]string
 	QAuthority string
 	QPendingN  int
+	QPending   []string // the pending query's entries: operator|cons key|tokens|msd|rates|description
 	Seqs       map[int]uint64
 	Seq0       map[int]uint64 // sequence numbers right after genesis (gentx signers start at 1)
 	Dels       map[int]string // self-delegation shares by validator id
@@ -112,7 +115,8 @@ func (c *Chain) Snap() *Snapshot {
 		id := c.Keys.valID(v.OperatorAddress)
 		vs := &ValSnap{ID: id, Cons: c.consID(v), Status: int(v.Status), Jailed: v.Jailed, Tokens: v.Tokens.String(), Shares: decScaled(v.DelegatorShares),
 			UBHeight: v.UnbondingHeight, UBTime: c.relTime(v.UnbondingTime), MSD: v.MinSelfDelegation.String(),
-			Rate: decScaled(v.Commission.Rate), MaxRate: decScaled(v.Commission.MaxRate), MaxChg: decScaled(v.Commission.MaxChangeRate)}
+			Rate: decScaled(v.Commission.Rate), MaxRate: decScaled(v.Commission.MaxRate), MaxChg: decScaled(v.Commission.MaxChangeRate),
+			Desc: descKey(v.Description.Moniker, v.Description.Identity, v.Description.Website, v.Description.SecurityContact, v.Description.Details)}
 		if v.Status != stakingtypes.Unbonding {
 			// x/staking leaves stale unbonding time/height on re-bonded validators; they are not observable behaviour
 		}
@@ -195,7 +199,8 @@ func (c *Chain) Snap() *Snapshot {
 	for _, pv := range pend.Validators {
 		ps := PendSnap{Oper: c.Keys.valID(pv.OperatorAddress), Cons: -1, Tokens: pv.Tokens.String(), Shares: decScaled(pv.DelegatorShares), MSD: pv.MinSelfDelegation.String(),
 			Rate: decScaled(pv.Commission.CommissionRates.Rate), MaxRate: decScaled(pv.Commission.CommissionRates.MaxRate), MaxChg: decScaled(pv.Commission.CommissionRates.MaxChangeRate),
-			Moniker: pv.Description.Moniker, Status: int(pv.Status), Jailed: pv.Jailed}
+			Moniker: pv.Description.Moniker, Status: int(pv.Status), Jailed: pv.Jailed,
+			Desc: descKey(pv.Description.Moniker, pv.Description.Identity, pv.Description.Website, pv.Description.SecurityContact, pv.Description.Details)}
 		if pv.ConsensusPubkey != nil {
 			if err := pv.UnpackInterfaces(app.InterfaceRegistry()); err == nil {
 				sv := poa.ConvertPOAToStaking(pv)
@@ -236,6 +241,17 @@ func (c *Chain) Snap() *Snapshot {
 	var pr poa.PendingValidatorsResponse
 	if err := c.query("/strangelove_ventures.poa.v1.Query/PendingValidators", &poa.QueryPendingValidatorsRequest{}, &pr); err == nil {
 		s.QPendingN = len(pr.Pending)
+		for _, pv := range pr.Pending {
+			cons := -1
+			if pv.ConsensusPubkey != nil {
+				if err := pv.UnpackInterfaces(app.InterfaceRegistry()); err == nil {
+					cons = c.consID(poa.ConvertPOAToStaking(pv))
+				}
+			}
+			s.QPending = append(s.QPending, fmt.Sprintf("%d|%d|%s|%s|%s|%s|%s|%s", c.Keys.valID(pv.OperatorAddress), cons, pv.Tokens.String(), pv.MinSelfDelegation.String(),
+				decScaled(pv.Commission.CommissionRates.Rate), decScaled(pv.Commission.CommissionRates.MaxRate), decScaled(pv.Commission.CommissionRates.MaxChangeRate),
+				descKey(pv.Description.Moniker, pv.Description.Identity, pv.Description.Website, pv.Description.SecurityContact, pv.Description.Details)))
+		}
 	} else {
 		s.QPendingN = -1
 	}
@@ -373,6 +389,7 @@ func (s *Snapshot) Lines() []string {
 type BlockTrace struct {
 	Height  int64
 	TxOut   []string
+	ResDet  []string   // per executed tx: the fields CometBFT hashes into LastResultsHash (code, data, gas wanted, gas used)
 	Updates [][2]int64 // (cons id, power), ordered as returned
 	Halt    string
 	Comet   string
@@ -641,6 +658,7 @@ func (c *Chain) ExecBlock(b BlockSpec) *BlockTrace {
 			continue
 		}
 		bt.TxOut = append(bt.TxOut, txOutcome(res.TxResults[j]))
+		bt.ResDet = append(bt.ResDet, fmt.Sprintf("%d/%x/%d/%d", res.TxResults[j].Code, res.TxResults[j].Data, res.TxResults[j].GasWanted, res.TxResults[j].GasUsed))
 		j++
 	}
 	bt.Updates = c.updatesOf(res.Updates)
